@@ -41,6 +41,8 @@ def do_call(obj, call):
             elif o[0] == "tell":
                 r = obj.tell()
         return r
+    if op == "tree":
+        return obj.tree()
     if op == "meta":
         return obj.meta()
     if op == "snapshots":
@@ -136,6 +138,10 @@ def main():
     if "max_inflate" in exp:
         ok = inflated[0] <= exp["max_inflate"]
         print(f"{'MATCH' if ok else 'MISMATCH'} largest inflate output {inflated[0]} (bound {exp['max_inflate']})")
+        return 0 if ok else 1
+    if "hyperv_tree" in exp:
+        ok = res == exp["hyperv_tree"]
+        print(f"{'MATCH' if ok else 'MISMATCH'} decoded {res} stored {exp['hyperv_tree']}"[:900])
         return 0 if ok else 1
     if "qcow2_meta" in exp:
         w = exp["qcow2_meta"]
